@@ -253,70 +253,151 @@ Definition main_post (kd : kind) (ctx timed : bool) : list eff :=
   raise_eff kd ++ (if ctx then [FDisable] else [])
   ++ (match kd with KReturn => [] | k => if absorbed k then [FCaught k] else [] end)
   ++ (if timed then [FTimerStop] else []).
-Definition main_outcome (kd : kind) : outcome := match kd with KExc => ORaised KExc | _ => ONormal end.
+Definition main_rest (out : ostate) (outfile : string) : list eff :=
+  match out with
+  | OutOk => [FWrote outfile; FInspect; FUninstall]
+  | OutNone => [FUninstall]
+  | OutBroken => [FIOFails]
+  end.
+Definition main_outcome (kd : kind) (out : ostate) : outcome :=
+  match out with
+  | OutBroken => OIOError
+  | _ => match kd with KExc => ORaised KExc | _ => ONormal end
+  end.
 
-Lemma kern_run_closed_form stream kd reg ctx timed outfile :
-  kern_run stream kd reg ctx timed outfile
+Lemma kern_run_closed_form stream kd reg out ctx timed outfile :
+  kern_run stream kd reg out ctx timed outfile
   = (main_pre ctx ++ map FProg stream ++ main_post kd ctx timed
-     ++ FDump outfile (prof_run reg pst0 stream) :: [FWrote outfile; FInspect; FUninstall],
-     main_outcome kd, prof_run reg pst0 stream).
+     ++ FDump outfile (prof_run reg pst0 stream) :: main_rest out outfile,
+     main_outcome kd out, prof_run reg pst0 stream).
 Proof.
-  unfold kern_run, kern_main, main_pre, main_post, main_outcome.
-  destruct ctx, timed, kd; cbn [exec absorbed raise_eff program_outcome app];
+  unfold kern_run, kern_main, main_pre, main_post, main_outcome, main_rest.
+  destruct out, ctx, timed, kd; cbn [exec absorbed raise_eff program_outcome app];
     rewrite <- ?app_assoc; reflexivity.
+Qed.
+
+Definition is_iofail (e : eff) : bool := match e with FIOFails => true | _ => false end.
+Definition nofail (tr : list eff) : bool := forallb (fun e => negb (is_iofail e)) tr.
+
+Lemma nofail_prog s : nofail (map FProg s) = true.
+Proof. induction s as [|e t IH]; [reflexivity|exact IH]. Qed.
+
+Lemma no_failure_skip pre t :
+  nodump pre = true -> nofail pre = true -> no_failure_before_dump (pre ++ t) = no_failure_before_dump t.
+Proof.
+  induction pre as [|e r IH]; [reflexivity|]. cbn [nodump nofail forallb app].
+  intros H1 H2. apply andb_prop in H1 as [A1 A2]. apply andb_prop in H2 as [B1 B2].
+  destruct e; try discriminate; cbn [no_failure_before_dump]; apply IH; assumption.
 Qed.
 
 Lemma nodump_pre ctx : nodump (main_pre ctx) = true.
 Proof. destruct ctx; reflexivity. Qed.
 Lemma nodump_post kd ctx timed : nodump (main_post kd ctx timed) = true.
 Proof. destruct kd, ctx, timed; reflexivity. Qed.
+Lemma nofail_pre ctx : nofail (main_pre ctx) = true.
+Proof. destruct ctx; reflexivity. Qed.
+Lemma nofail_post kd ctx timed : nofail (main_post kd ctx timed) = true.
+Proof. destruct kd, ctx, timed; reflexivity. Qed.
 Lemma program_events_app a b : program_events (a ++ b) = program_events a ++ program_events b.
 Proof. unfold program_events. apply flat_map_app. Qed.
 
-Theorem dump_on_every_outcome stream kd reg ctx timed outfile :
-  let '(tr, oc, st) := kern_run stream kd reg ctx timed outfile in
+Theorem dump_on_every_outcome stream kd reg out ctx timed outfile :
+  let '(tr, oc, st) := kern_run stream kd reg out ctx timed outfile in
   one_dump_after_program tr = true
   /\ count_eff is_dump tr = 1
+  /\ no_failure_before_dump tr = true
   /\ dumped_state tr = Some (outfile, prof_run reg pst0 stream)
   /\ program_events tr = stream
-  /\ oc = (match kd with KExc => ORaised KExc | _ => ONormal end)
+  /\ oc = (match out with
+           | OutBroken => OIOError
+           | _ => match kd with KExc => ORaised KExc | _ => ONormal end
+           end)
   /\ st = prof_run reg pst0 stream.
 Proof.
   rewrite kern_run_closed_form.
   pose proof (nodump_pre ctx) as H1. pose proof (nodump_prog stream) as H2.
   pose proof (nodump_post kd ctx timed) as H3.
+  pose proof (nofail_pre ctx) as G1. pose proof (nofail_prog stream) as G2.
+  pose proof (nofail_post kd ctx timed) as G3.
   repeat split.
-  - rewrite !one_dump_skip by assumption. reflexivity.
-  - rewrite !count_dump_skip by assumption. reflexivity.
+  - rewrite !one_dump_skip by assumption. destruct out; reflexivity.
+  - rewrite !count_dump_skip by assumption. destruct out; reflexivity.
+  - rewrite !no_failure_skip by assumption. reflexivity.
   - rewrite !dumped_skip by assumption. reflexivity.
   - rewrite program_events_app, program_events_prog, program_events_app.
     replace (program_events (main_pre ctx)) with (@nil pev) by (destruct ctx; reflexivity).
     replace (program_events (main_post kd ctx timed)) with (@nil pev) by (destruct kd, ctx, timed; reflexivity).
-    cbn. apply app_nil_r.
+    destruct out; cbn; apply app_nil_r.
+Qed.
+
+(* what the order of the real finally block buys: were the block to start with a
+   flush of the program's stdout, then with a stdout that is None or cannot be
+   written to NO dump would happen at all, whatever the program did *)
+Lemma filter_dump_prog s : filter is_dump (map FProg s) = [].
+Proof. induction s as [|e t IH]; [reflexivity|exact IH]. Qed.
+
+Theorem flush_first_loses_results stream kd reg out ctx timed outfile :
+  out <> OutOk ->
+  let '(tr, oc, _) := exec stream kd reg out (kern_main_flush_first ctx timed outfile) pst0 in
+  count_eff is_dump tr = 0 /\ oc = OIOError.
+Proof.
+  intros Hout. unfold kern_main_flush_first, count_eff.
+  destruct out; [congruence| |];
+    destruct ctx, timed, kd; cbn [exec absorbed raise_eff program_outcome app];
+    rewrite ?filter_app, ?filter_dump_prog; cbn [app filter is_dump length];
+    rewrite ?filter_app, ?filter_dump_prog; cbn [app filter is_dump length]; split; reflexivity.
 Qed.
 
 (* ---- the explicit mode ------------------------------------------------------------------- *)
 Definition hook_outputs (r : res emitted) : list (Z * option string) :=
   match r with Ok e => emitted_codes e | Err _ => [] end.
 
+Lemma no_stdout_output wc prefix ts :
+  w_stdout wc = false -> wants_stdout (emitted_codes (expected_outputs wc prefix ts)) = false.
+Proof.
+  destruct wc as [l t m o]. cbn [w_stdout]. intros ->.
+  unfold expected_outputs, all_kinds, emitted_codes, wants_stdout.
+  cbn [filter switched_on w_lprof w_text w_timestamped w_stdout].
+  destruct l, t, m; reflexivity.
+Qed.
+
 Theorem explicit_atexit (environ : string -> option string) (argv : list string) (ops : list op)
-        (wc : write_config) (ts : string) stream kd reg :
+        (wc : write_config) (ts : string) stream kd reg out :
   user_history ops = true ->
   spec_active (requestedb (environ "LINE_PROFILE") argv) None ops = true ->     (* profiling was switched on *)
+  out = OutOk \/ w_stdout wc = false ->          (* stdout can be written to, or the stdout report is switched off *)
   let s' := snd (run environ argv gp_init ops) in
   let prefix := spec_prefix init_output_prefix ops in
   let st := prof_run reg pst0 stream in
   f_atexit s' = 1
-  /\ explicit_run stream kd reg (map hook_outputs (at_exit s' wc ts))
+  /\ explicit_run stream kd reg out (map hook_outputs (at_exit s' wc ts))
      = (map FProg stream ++ raise_eff kd ++ [FShow (emitted_codes (expected_outputs wc prefix ts)) st],
         program_outcome kd, st).
 Proof.
-  intros Hu Ha s' prefix st.
+  intros Hu Ha Hout s' prefix st.
   destruct (single environ argv ops Hu) as (_ & B & _). cbn zeta in B. rewrite Ha in B.
   split; [exact B|].
   pose proof (outputs_exact environ argv ops wc ts Hu) as H. cbn zeta in H. rewrite Ha in H.
   unfold explicit_run. cbn [exec]. subst s'. rewrite H. cbn [map hook_outputs].
-  rewrite <- app_assoc. reflexivity.
+  rewrite <- app_assoc. f_equal. f_equal. f_equal. f_equal.
+  unfold show_eff. destruct Hout as [-> | Hw]; [reflexivity|].
+  rewrite (no_stdout_output wc _ ts Hw). destruct out; reflexivity.
+Qed.
+
+(* FINDING: with the default outputs (stdout report on) and a program that leaves
+   sys.stdout unusable, the single exit hook raises in its first step: no output is
+   written at all *)
+Theorem explicit_stdout_broken_refuted :
+  exists environ argv ops wc ts stream kd reg out,
+    user_history ops = true
+    /\ spec_active (requestedb (environ "LINE_PROFILE") argv) None ops = true
+    /\ out <> OutOk /\ w_stdout wc = true /\ w_lprof wc = true
+    /\ count_eff is_show (fst (fst (explicit_run stream kd reg out
+                                      (map hook_outputs (at_exit (snd (run environ argv gp_init ops)) wc ts))))) = 0.
+Proof.
+  exists (environ_of (Some "1")), ["prog"], [OpDecorate (Fn 1)], (mkWC true true true true), "T",
+         [PCall 0; PLine 0 2; PRet 0], KReturn, (fun _ => true), OutNone.
+  repeat split; try discriminate.
 Qed.
 
 (* ---- witnesses ----------------------------------------------------------------------------- *)
